@@ -38,8 +38,8 @@ LEVEL_NOTE = (
 CATEGORY = "exploration"
 RULE = (
     "case = (server encode set, response kind, X-VGI-Accept-Encoding list, Accept-Encoding list); distinct class = "
-    "(response kind, encode set, expected outcome and reason, announcing header, shape of both lists: length, identity / "
-    "unknown / wildcard / q / case / duplicate flags)"
+    "(response kind, encode set, expected outcome and reason, announcing header, shape of both lists: one/many, first "
+    "token kind, identity / unknown / wildcard / q flags)"
 )
 
 TOKENS = ["zstd", "gzip", "identity", "br", "*", "ZSTD", "gzip;q=0.5", "zstd;q=0", " Identity ", "deflate"]
@@ -363,7 +363,7 @@ def run_shard(job: dict[str, Any]) -> dict[str, Any]:
                 chk.hit("choice_judged")
                 if got_coding != exp.coding:
                     chk.violation(
-                        f"wrong_coding:{path_kind}:expected_{exp.coding}:got_{got_coding}:{exp.why}",
+                        f"wrong_coding:{path_kind}:{exp.why.replace(':q_agrees', '')}",
                         f"response coding {got_coding!r} but the preference model says {exp.coding!r} ({exp.why})",
                         {**wit, "producible": producible},
                     )
